@@ -28,6 +28,7 @@ class Job:
     allowed: Tuple[Tuple[str, str], ...] = ()
     # failed checks that MUST fail (expected clean panic), same shape
     expect_fail: Tuple[Tuple[str, str], ...] = ()
+    native_oracle: bool = False       # an ALLOWED panic, when reachable, is replayed natively where the unwinding is caught and the oracle decides
     role: str = ""                    # stable key for known-findings matching
     what: str = ""                    # one line: what this harness decides
     bounds: str = ""                  # stated bounds
